@@ -136,6 +136,7 @@ private:
 		{
 			ASL_BAD_ALLOC();
 		}
+		ASL_VERIF_POINT(18, this);
 	}
 	void run(Function_ f, ThreadAttrib& a , void* arg=0)
 	{
@@ -145,6 +146,7 @@ private:
 		{
 			ASL_BAD_ALLOC();
 		}
+		ASL_VERIF_POINT(18, this);
 	}
 #endif
 	static ASL_THREADFUNC_RET ASL_THREADFUNC_API begin(void* p)
